@@ -165,6 +165,7 @@ type reqSpec struct {
 	Gzip        bool   `json:"gzip,omitempty"`
 	EOFWithLast bool   `json:"eof_with_last,omitempty"`
 	Abort       bool   `json:"abort,omitempty"` // after the chunks the transport fails (connection reset) instead of reporting EOF
+	GzipSplit   int    `json:"gzip_split,omitempty"` // Gzip: the body is sent as two gzip members, the first holding this many bytes of it
 	BadGzip     bool   `json:"bad_gzip,omitempty"` // Content-Encoding: gzip but the body is not a gzip stream (answered 400); only primes the pools
 }
 
@@ -229,6 +230,10 @@ func gz(body string) []byte {
 }
 
 func (rs reqSpec) transport() []byte {
+	if rs.Gzip && rs.GzipSplit > 0 && rs.GzipSplit < len(rs.Body) {
+		// a multi-member gzip stream (concatenated .gz files, a client that restarts its gzip writer per flush)
+		return append(append([]byte{}, gz(rs.Body[:rs.GzipSplit])...), gz(rs.Body[rs.GzipSplit:])...)
+	}
 	if rs.Gzip {
 		return gz(rs.Body)
 	}
@@ -920,7 +925,7 @@ func TestVerif(t *testing.T) {
 	r.Assume("the transport is an io.Reader returning the chosen chunks (net/http server and TCP segmentation are not executed)")
 	r.Assume("empty records are not events: Pipeline.In discards len(data)==0 before doing anything, so the oracle compares the non-empty records")
 	r.Assume("interleavings of concurrent requests are explored at the granularity of body Reads (lock-step readers); finer-grained data races are out of scope")
-	r.Assume("gzip bodies are well-formed single-member streams produced by compress/gzip")
+	r.Assume("gzip bodies are well-formed streams of one or two members produced by compress/gzip")
 
 	// primers: run before the enumerated request on the same plugin instance (pools are not touched in between)
 	primers := [][]reqSpec{
@@ -975,6 +980,20 @@ func TestVerif(t *testing.T) {
 			c.runCase(&tcase{Mode: "chunk", Buf: defaultBuf, Reqs: []reqSpec{{Body: body, Chunks: chunks}}})
 			if len(chunks) > 0 {
 				c.runCase(&tcase{Mode: "chunk-last", Buf: defaultBuf, Reqs: []reqSpec{{Body: body, Chunks: chunks}}})
+			}
+		}
+		// gzip, two members: every position of the member boundary, whole and in 7-byte reads
+		for k := 1; k < len(body); k++ {
+			two := reqSpec{Body: body, Gzip: true, GzipSplit: k}
+			n := len(two.transport())
+			for ci, chunks := range [][]int{{n}, uniform(n, 7)} {
+				two.Chunks = chunks
+				two.EOFWithLast = ci == 1
+				mode := "serve"
+				if k%2 == 0 {
+					mode = "serve-es"
+				}
+				c.runCase(&tcase{Mode: mode, Buf: []int{3, defaultBuf}[ci], Avg: 0, Reqs: []reqSpec{two, probeGz}, Main: 0})
 			}
 		}
 		// gzip
